@@ -49,6 +49,22 @@ class FactoryDC:
 
 def scenario_pairs(name):
   """Hand-made pairs (a, b, expect_equal)."""
+  if name == 'namedtuple_subclass':
+    # sharing that runs through a SUBCLASS of a namedtuple class (and a sub-subclass)
+    f = graphs.node_fn(1, 0)
+    g = graphs.node_fn(1, 1)
+
+    class SubSub(graphs.NTSub):
+      pass
+    for cls in (graphs.NTSub, SubSub, graphs.NT):
+      a, b = fdl.Config(g, p=1), fdl.Config(g, p=1)
+      yield fdl.Config(f, p=cls(a, a)), fdl.Config(f, p=cls(a, b)), False
+      a2 = fdl.Config(g, p=1)
+      yield fdl.Config(f, p=cls(a, a)), fdl.Config(f, p=cls(a2, a2)), True
+      x, y = [1], [1]
+      yield fdl.Config(f, p=cls(x, 2), q=x), fdl.Config(f, p=cls(y, 2), q=[1]), False
+      yield fdl.Config(f, p=cls(x, 2), q=x), fdl.Config(f, p=cls(y, 2), q=y), True
+    return
   if name == 'dataclass_factory':
     # a dataclass field with a default_factory has no default VALUE: set on one side only it
     # makes the configurations unequal - and == must say so rather than raise
@@ -88,6 +104,7 @@ def cases(tier, r):
   yield 'scenario', {'scenario': 'shared_defaults', 'seed': 0}
   yield 'scenario', {'scenario': 'late_registration', 'seed': 0}
   yield 'scenario', {'scenario': 'dataclass_factory', 'seed': 0}
+  yield 'scenario', {'scenario': 'namedtuple_subclass', 'seed': 0}
   for _ in range(900 if tier == 'quick' else 15000):
     yield 'pair', {'seed': r.getrandbits(48), 'size': r.choice([3, 5, 8]),
                    'rewrites': [r.choice(REWRITES) for _ in range(2)], 'mixed': r.random() < 0.3}
@@ -183,10 +200,33 @@ PRESERVING = [rw_deepcopy, rw_default_explicit, rw_dict_reorder, rw_history, rw_
 # -- equality-breaking rewrites (must be != and, for aliasing changes, build differently) ----
 
 
+def own_walk(root):
+  """Every distinct container / Buildable reachable from root - the harness's own walk (it does
+  not ask daglish which types can be entered)."""
+  seen, out = set(), []
+
+  def go(x):
+    if graphs.is_atom(x) or id(x) in seen:
+      return
+    seen.add(id(x))
+    out.append(x)
+    if isinstance(x, fdl.Buildable):
+      for y in x.__arguments__.values():
+        go(y)
+    elif isinstance(x, (list, tuple)):
+      for y in x:
+        go(y)
+    elif isinstance(x, dict):
+      for y in x.values():
+        go(y)
+  go(root)
+  return out
+
+
 def positions(c):
   """(parent, setter) for every argument / container slot reachable from c."""
   out = []
-  for v, _ in daglish.iterate(c):
+  for v in own_walk(c):
     if isinstance(v, fdl.Buildable):
       sigv = graphs.sig_of(v)
       for k in list(v.__arguments__):
@@ -339,7 +379,9 @@ def execute(case):
     eq_rev, _ = safe_eq(v, a)
     rec = {'rewrite': name, 'eq': eq, 'ne': ne, 'eq_rev': eq_rev,
            'preserving': BY_NAME[name] in PRESERVING,
-           'builds_equal': build_canon(a) == build_canon(v)}
+           'builds_equal': build_canon(a) == build_canon(v),
+           # the harness's own sharing-aware canonical form (independent of daglish and build)
+           'same_structure': graphs.canon(a, order_dicts=True) == graphs.canon(v, order_dicts=True)}
     obs['pairs'].append(rec)
     hv, _ = graphs.encode(v)
     reqs.append({'p': 'eq', 'a': ha, 'b': hv})
@@ -383,7 +425,7 @@ def oracle(case, real):
     if rec['preserving'] and not rec['eq']:
       return {'what': 'an equality-preserving rewrite changed ==', 'rec': rec}
     alias_rw = rec['rewrite'] in ('rb_unshare', 'rb_share')
-    if not rec['preserving'] and rec['eq'] and not (alias_rw and rec['builds_equal']):
+    if not rec['preserving'] and rec['eq'] and not (alias_rw and rec.get('same_structure', rec['builds_equal'])):
       # (an alias rewrite on an immutable object may leave the object graph as it was)
       return {'what': 'an equality-breaking rewrite was not distinguished', 'rec': rec}
     if rec['eq'] and not rec['builds_equal']:
